@@ -126,6 +126,10 @@ func execRetry(toks []string) string {
 }
 
 func genRetry(r *RNG, n int, op string, emit func(string)) {
+	if op == "conn" {
+		genRetryConn(r, n, emit)
+		return
+	}
 	if op == "exhaustive" {
 		// every outcome script for a 6-byte body remainder is too many for a full message; use
 		// the smallest message (20-byte header + one 8-byte AVP = 28 bytes) and enumerate the
